@@ -145,7 +145,18 @@ type Machine struct {
 	pureCache      map[*ssa.Function]bool
 	onceDone       map[*Value]bool
 	coverByEntry   map[string]map[string][]map[string]string
+	lastFrame      *frame
+	Sched          Scheduler
+	uniq           map[string]*Value
+	model          map[string]uint64
+	modelValid     bool
+	auxVars        []*Term
+	sizeCut        int
+	sizeAbstracted int
 }
+
+// SizeNotes reports how often allocation sizes were cut or abstracted.
+func (m *Machine) SizeNotes() (cut, abstracted int) { return m.sizeCut, m.sizeAbstracted }
 
 // SetNoMerge disables region merging.
 func (m *Machine) SetNoMerge(b bool) { m.noMerge = b }
@@ -192,6 +203,7 @@ type frame struct {
 	phitemps         []Value
 	curInstr         ssa.Instruction
 	skipPhis         bool
+	tolerant         bool // package initialiser: failing instructions are skipped
 }
 
 func (m *Machine) pos2str(p token.Pos) string {
@@ -323,15 +335,57 @@ func deref(t types.Type) types.Type {
 
 // choose picks one of mutually exclusive alternatives, forking the exploration.
 func (m *Machine) choose(alts []*Term, site string) int {
+	return m.chooseEx(alts, site, false)
+}
+
+// pcModel returns a cached assignment of this path's variables satisfying the
+// path condition, asking the solver when none is cached.
+func (m *Machine) pcModel() map[string]uint64 {
+	if T.hasUF {
+		return nil
+	}
+	if m.modelValid {
+		return m.model
+	}
+	if len(m.pc) == 0 {
+		m.model = map[string]uint64{}
+		m.modelValid = true
+		return m.model
+	}
+	r, mdl := m.S.Check(m.pc, nil, m.pathVars())
+	if r == Sat {
+		if mdl == nil {
+			mdl = map[string]uint64{}
+		}
+		m.model, m.modelValid = mdl, true
+		return mdl
+	}
+	return nil
+}
+
+func (m *Machine) pathVars() []*Term {
+	vs := m.inputVars()
+	return append(vs, m.auxVars...)
+}
+
+// addPC extends the path condition, keeping the cached model when it still fits.
+func (m *Machine) addPC(c *Term) {
+	if m.modelValid && !(Eval(c, m.model, map[*Term]uint64{}) != 0) {
+		m.modelValid = false
+	}
+	m.pc = append(m.pc, c)
+}
+
+// chooseEx is choose with the knowledge that the alternatives are exhaustive
+// (their disjunction is valid), which saves the last feasibility query.
+func (m *Machine) chooseEx(alts []*Term, site string, exhaustive bool) int {
 	// syntactic decision
-	nonFalse := -1
 	cnt := 0
 	for i, a := range alts {
 		if a.IsTrue() {
 			return i
 		}
 		if !a.IsFalse() {
-			nonFalse = i
 			cnt++
 		}
 	}
@@ -341,17 +395,38 @@ func (m *Machine) choose(alts []*Term, site string) int {
 	if m.inMerge {
 		panic(mergeAbort{"fork inside merge region: " + site})
 	}
-	_ = nonFalse
 	if m.pos < len(m.prefix) {
 		k := int(m.prefix[m.pos])
 		m.pos++
 		m.taken = append(m.taken, int64(k))
+		m.modelValid = false
 		m.pc = append(m.pc, alts[k])
 		return k
 	}
+	byModel := -1
+	if mdl := m.pcModel(); mdl != nil {
+		memo := map[*Term]uint64{}
+		for i, a := range alts {
+			if !a.IsFalse() && Eval(a, mdl, memo) != 0 {
+				byModel = i
+				break
+			}
+		}
+	}
 	var feas []int
+	unchecked := cnt
 	for i, a := range alts {
 		if a.IsFalse() {
+			continue
+		}
+		unchecked--
+		if i == byModel {
+			feas = append(feas, i)
+			continue
+		}
+		if exhaustive && unchecked == 0 && len(feas) == 0 && byModel < 0 {
+			// all others are infeasible and the path condition is satisfiable
+			feas = append(feas, i)
 			continue
 		}
 		m.St.BranchQueries++
@@ -369,13 +444,22 @@ func (m *Machine) choose(alts []*Term, site string) int {
 	if len(feas) > 1 {
 		m.St.ForkSites[site] += len(feas) - 1
 	}
-	for _, k := range feas[1:] {
-		p := append(append([]int64{}, m.taken...), int64(k))
+	k := feas[0]
+	if byModel >= 0 {
+		k = byModel
+	}
+	for _, o := range feas {
+		if o == k {
+			continue
+		}
+		p := append(append([]int64{}, m.taken...), int64(o))
 		m.work = append(m.work, p)
 	}
-	k := feas[0]
 	m.taken = append(m.taken, int64(k))
 	m.St.Decisions++
+	if k != byModel {
+		m.modelValid = false
+	}
 	m.pc = append(m.pc, alts[k])
 	return k
 }
@@ -388,7 +472,7 @@ func (m *Machine) branch(c *Term, site string) bool {
 	if c.IsFalse() {
 		return false
 	}
-	return m.choose([]*Term{c, Not(c)}, site) == 0
+	return m.chooseEx([]*Term{c, Not(c)}, site, true) == 0
 }
 
 // concretize forks over the feasible values of t (interpreted as signed when
@@ -404,6 +488,7 @@ func (m *Machine) concretize(t *Term, site string) int64 {
 		v := m.prefix[m.pos]
 		m.pos++
 		m.taken = append(m.taken, v)
+		m.modelValid = false
 		m.pc = append(m.pc, Eq(t, BV(t.W, uint64(v))))
 		return v
 	}
@@ -446,7 +531,7 @@ func (m *Machine) concretize(t *Term, site string) int64 {
 	v := vals[0]
 	m.taken = append(m.taken, v)
 	m.St.Decisions++
-	m.pc = append(m.pc, Eq(t, BV(t.W, uint64(v))))
+	m.addPC(Eq(t, BV(t.W, uint64(v))))
 	return v
 }
 
@@ -458,7 +543,7 @@ func (m *Machine) assume(c *Term) {
 	if c.IsFalse() {
 		panic(pathEnd{"infeasible", "assume(false)"})
 	}
-	m.pc = append(m.pc, c)
+	m.addPC(c)
 }
 
 // rtPanic raises an interpreted run-time panic when bad may hold.
@@ -476,7 +561,7 @@ func (m *Machine) rtPanic(fr *frame, bad *Term, kind string) {
 			}
 			panic(mergeAbort{"possible panic in merge region: " + kind})
 		}
-		if m.choose([]*Term{Not(bad), bad}, "rt:"+kind+"@"+fr.where()) == 0 {
+		if m.chooseEx([]*Term{Not(bad), bad}, "rt:"+kind+"@"+fr.where(), true) == 0 {
 			return
 		}
 	}
@@ -509,6 +594,7 @@ func (m *Machine) runtimeError(msg string) Value {
 
 func (m *Machine) step(fr *frame) {
 	m.steps++
+	m.lastFrame = fr
 	if m.steps > m.Cfg.MaxSteps {
 		panic(pathEnd{"budget", fmt.Sprintf("instruction budget %d exceeded in %s", m.Cfg.MaxSteps, fr.fn)})
 	}
@@ -580,6 +666,7 @@ func (m *Machine) call(caller *frame, fn *ssa.Function, args []Value, env []Valu
 	defer func() { m.depth-- }()
 	m.St.Funcs[name]++
 	fr := &frame{m: m, caller: caller, fn: fn}
+	fr.tolerant = fn.Synthetic == "package initializer"
 	fr.env = make(map[ssa.Value]Value, 16)
 	fr.block = fn.Blocks[0]
 	for _, l := range fn.Locals {
@@ -633,10 +720,14 @@ func (m *Machine) runFrame(fr *frame) {
 					fmt.Fprintf(os.Stderr, "%*s%s\n", m.depth, "", instr)
 				}
 			}
-			switch m.visitInstr(fr, instr) {
-			case kReturn:
+			var k continuation
+			if fr.tolerant {
+				k = m.visitTolerant(fr, instr)
+			} else {
+				k = m.visitInstr(fr, instr)
+			}
+			if k == kReturn {
 				return
-			case kJump:
 			}
 			if m.Cfg.Trace {
 				if v, ok := instr.(ssa.Value); ok {
